@@ -20,6 +20,30 @@ CHECKS = {
    text="Bounded: run-time contract on the real assign_optimal_throughput over exactly the family the property names (5355 kernels over single-micro-op forms on every subset of 3 ports, 1 and 2 passes, exhaustive): bottleneck never exceeds the uniform one; after the CLI's two passes it is within 0.15 cy of the exact optimum (max over port subsets of confined cycles/|S|, computed independently) and never undercuts it beyond the rounding step. The only proved part is the Hall lower-bound lemma (any feasible split is >= the optimum).",
    note="No contract within the prover's reach expresses optimality of the greedy balancer; decisive part is bounded (label B).",
    tech="bounded run-time contract on the real function (exhaustive finite family) + one z3 lemma"),
+ "C03": dict(cat="proof", ref="DESIGN.md section 4 C03",
+   text="is_read and is_written are verified with loop invariants over three operand sequences of unbounded length against the statement's read/write predicates; find_depending (generator, nested loops over unbounded sequences, break on overwrite) is verified pointwise: soundness and tag at every yield, completeness and 'break <=> overwrite' at every body end/break, plus the reachability lemma, which together are the RAW relation; create_DG's loop body is verified to add exactly one forward edge per yielded dependency with the statement's weight (latency without load stage / write-back latency / + forwarding) and the separate load node iff the load was composed. Register overlap enters through the C12 contract. Role assignment from the ISA database and the whole pipeline are covered by a bounded comparison with an independent RAW oracle and a curated table of architecturally known roles.",
+   note="Type invariant of analysed instructions assumed (indexed memory operand has a base; base/index are registers); is_memload/is_memstore abstract here (C06); networkx add_node/add_edge as ghost calls (A); ISA-DB role data bounded (curated table).",
+   tech=TECH + "; pointwise generator obligations; bounded oracle comparison"),
+ "C04": dict(cat="proof", ref="DESIGN.md section 4 C04",
+   text="get_critical_path is verified on every dependency-graph structure with <= 3 instructions (optional separate load node each, every subset of forward edges) with all latencies symbolic: the sum of per-line CP latencies equals the maximum over chains of edge latencies (leading load stage once) plus the last instruction's execution latency, the marked lines are consecutive along a chain, and the total is >= every single latency. networkx enters through an executable specification of its assumed contract (any maximal path). Unbounded kernels are covered by a bounded comparison of the real pipeline with an independent longest-chain computation.",
+   note="Structure bounded (<= 3 instructions; values symbolic) - reported as bounded structure; A: networkx dag_longest_path/is_directed_acyclic_graph/copy/pairwise.",
+   tech=TECH + " on bounded graph structures; bounded oracle comparison"),
+ "C05": dict(cat="exploration", ref="DESIGN.md section 4 C05",
+   text="Bounded: the real pipeline is compared with an independent enumeration of winding-number-1 cycles over the reference dependency relation of two concatenated iterations (all kernels of length <= 3 over a per-ISA vocabulary + random longer kernels, with/without flag dependencies, kernels at line 1 and at line 1500); the report's LCD figure/column are compared with the analysis. Proved part: the doubling phase (ids of both copies separated by the offset, distinct, shallow copies, originals untouched) for kernels of <= 3 lines with symbolic line numbers.",
+   note="Cycle-set characterisation is argued (DESIGN C05(f)) and checked by the bounded oracle only; all_simple_paths is exercised for real.",
+   tech="bounded run-time oracle comparison on the real pipeline + VCs for the doubling arithmetic"),
+ "C06": dict(cat="proof", ref="DESIGN.md section 4 C06",
+   text="is_memload is verified for every operand shape (store address x load address x tracked-change entries, both ISAs' name formats) with all names, displacements, scales and tracked values symbolic: True iff base/index registers agree after renaming, scales agree and the adjusted displacement is zero; is_memstore (structural equality), _update_reg_changes (state machine untracked/unknown/(origin,delta)), the memory branch of find_depending and the edge weight store latency + forwarding latency (create_DG) are verified. get_reg_changes (exec of YAML operation strings) and the pipeline are covered by a bounded comparison with an independent address tracker over the store / pointer-bump / load family of both ISAs.",
+   note="One memory source per consumer in the proof units; get_reg_changes bounded only; symbolic displacements compared by name.",
+   tech=TECH + " per operand shape; bounded oracle comparison"),
+ "C13": dict(cat="exploration", ref="DESIGN.md section 4 C13",
+   text="Bounded: run-time contract on the real inspect(): the text report is parsed back by column position and every port-pressure/CP/LCD cell, the summary row, the LCD list, X marks, the missing-data warning and its count, suppression of totals, --ignore-unknown, the arch warning/default model and the length warning are compared with the --yaml-out data and the analysis objects over corpus x models x options. The warning-text and flag-symbol helper functions are proved.",
+   note="String formatting is outside the prover's subset; decisive part bounded.",
+   tech="bounded run-time contract on the real CLI entry point (report parsed back) + VCs for warning helpers"),
+ "C14": dict(cat="exploration", ref="DESIGN.md section 4 C14",
+   text="Bounded: relational run-time contract on the real pipeline - for every rotation offset of every generated kernel the LCD set keyed by instruction text and latency equals the unrotated one. The argument why it holds in general (C03 + C05) is in DESIGN.md, not mechanised.",
+   note="Metamorphic two-call property: no single-call contract decides it.",
+   tech="bounded relational run-time contract on the real pipeline"),
 }
 NA = {
  "C17": "quantifies over file-system histories, crash points of cache writes and process races; no function contract decides it (needs fault enumeration / a file-system model)",
